@@ -422,8 +422,19 @@ func (g *jsonGen) ws() {
 	}
 }
 
+// strings that are syntax in some other notation (comments, paths ending in a backslash, quotes of other languages):
+// a reader with an extension for such notation must still read them as the strings they are
+var otherSyntax = []string{"C:\\", "\\", "\\\\", "http://x", "/*", "*/ x", "//", "a//b", "/* c */", "# c", "<!-- -->", "'q'", "a\\\"", "--", ";", "\\n", "${x}", "%s", "\\u0041"}
+
 func (g *jsonGen) str() {
 	g.sb.WriteByte('"')
+	if g.r.Chance(12) {
+		for _, cp := range otherSyntax[g.r.Intn(len(otherSyntax))] {
+			g.char(cp)
+		}
+		g.sb.WriteByte('"')
+		return
+	}
 	n := g.r.Intn(6)
 	for i := 0; i < n; i++ {
 		cp := g.r.Rune()
@@ -689,7 +700,10 @@ func runC04(c *Ctx) {
 		}
 		c.St.Eval("cut:"+text, len(text) >= 3)
 		// ill-formed UTF-8 between the root brackets
-		bad := []string{"\x80", "\xC3", "\xE2\x82", "\xC0\xAF", "\xE0\x80\x80", "\xED\xA0\x80", "\xF5\x80\x80\x80", "\xFF", "\xF4\x90\x80\x80", "\xF0\x9F\x98"}
+		bad := []string{"\x80", "\xC3", "\xE2\x82", "\xC0\xAF", "\xE0\x80\x80", "\xED\xA0\x80", "\xF5\x80\x80\x80", "\xFF", "\xF4\x90\x80\x80", "\xF0\x9F\x98",
+			// lone lead bytes of every length class and the proper prefixes of U+FFFD's own encoding (a test written as
+			// "the decoder answered RuneError, but the text really says U+FFFD" must look at more than the first byte)
+			"\xE2", "\xEF", "\xEF\xBF", "\xEF\xBB", "\xF0", "\xF0\x9F", "\xBF", "\xBD", "\xBF\xBD", "\xEF\xBD"}
 		for pos := 1; pos < len(text); pos++ {
 			if !c.Quick || r.Intn(3) == 0 {
 				b := bad[r.Intn(len(bad))]
@@ -993,7 +1007,7 @@ func (c *Ctx) fileStratum(prop string, nRandom int) {
 			// ill-formed UTF-8 between the brackets: ParseFile must reject it exactly as ParseObject does
 			content = r.Container(opts, '{').Build().(at.Object).String()
 			pos := 1 + r.Intn(len(content)-1)
-			content = content[:pos] + []string{"\x80", "\xC3", "\xE2\x82", "\xC0\xAF", "\xED\xA0\x80", "\xFF"}[r.Intn(6)] + content[pos:]
+			content = content[:pos] + []string{"\x80", "\xC3", "\xE2\x82", "\xC0\xAF", "\xED\xA0\x80", "\xFF", "\xEF", "\xEF\xBF", "\xF0"}[r.Intn(9)] + content[pos:]
 		}
 		put(content)
 	}
